@@ -275,6 +275,26 @@ package types
 //@   ensures[* others] forall id String :: n == nil || id != n.Id ==> StHas("nodecreds", id) == old(StHas("nodecreds", id)) && StGet("nodecreds", id) == old(StGet("nodecreds", id))
 //@   modifies StNodeCreds
 
+// ---------------------------------------------------------------- node side of a fetch (C04, C13)
+//
+// openedWith(ks, C, nonce): ciphertext C opens under the current or the previous
+// key of key source ks, and the credentials inside carry registration nonce nonce.
+//@ pred openedWith(ks, C, nonce) := (curOk(ks) && aeadOk(curKey(ks), curId(ks), C)
+//@   |    && decField("types.NodeCredentials", "RegistrationNonce", aeadPt(curKey(ks), curId(ks), C)) == nonce)
+//@   | || (curOk(ks) && prevOk(ks) && aeadOk(prevKey(ks), prevId(ks), C)
+//@   |    && decField("types.NodeCredentials", "RegistrationNonce", aeadPt(prevKey(ks), prevId(ks), C)) == nonce)
+
+//@ func types.(*NodeCredentials).HandleFetchNodeCredentialsResponse
+//@   let ks = ifaceOf(n)
+//@   let tok = opts(opt).WithActivationToken
+//@   ensures[C04,C13 failclosed] err != nil ==> ret == nil
+//@   ensures[C04 self] err == nil ==> ret == n && n != nil && input != nil && n.RegistrationNonce == nil && n.Id == "current"
+//@   ensures[C04 echo] err == nil && tok == "" ==> openedWith(ks, blobCt(input.EncryptedNodeCredentials), old(bytes(n.RegistrationNonce)))
+//@   ensures[C04 echotoken] err == nil && tok != "" ==> openedWith(ks, blobCt(input.EncryptedNodeCredentials), unb58(trimPrefix(tok, "neslat_")))
+//@   ensures[C04,C13 durable] err == nil && !opts(opt).WithSkipStorage ==> StHas("nodecreds", "current") && storedCreds(StGet("nodecreds", "current"), n)
+//@   ensures[C13 failed] err != nil ==> StHas("nodecreds", "current") == old(StHas("nodecreds", "current")) && StGet("nodecreds", "current") == old(StGet("nodecreds", "current"))
+//@   modifies fields(n), StNodeCreds
+
 //@ func types.LoadNodeCredentials
 //@   nopanic[*]
 //@   ensures[* failclosed] err != nil ==> ret == nil
